@@ -246,6 +246,11 @@ fn run_conc(l: &[Sx]) -> Sx {
                     thread::yield_now();
                 }
             }
+            if kind == "sendclose" {
+                // a peer that hangs up without reading a single reply: the server's writes fail
+                drop(conn);
+                return (true, Vec::new(), 0);
+            }
             let mut got = Vec::new();
             let mut buf = [0u8; 65536];
             if kind == "hold" {
@@ -445,6 +450,22 @@ fn run_timing(l: &[Sx]) -> Sx {
             let closed = t0.elapsed().as_millis() as u64;
             (accepted, first, complete, closed)
         }));
+    }
+    // an observation horizon (cases whose server is expected to outlive the case: it is then left behind,
+    // blocked in accept, and goes away with the harness process)
+    let horizon: Option<u64> = l.get(6).and_then(|m| m.as_list()).and_then(|m| m.get(1)).and_then(|m| m.as_usize()).map(|x| x as u64);
+    if let Some(h) = horizon {
+        let end = t0 + Duration::from_millis(h);
+        while !t_server.is_finished() && Instant::now() < end {
+            thread::sleep(Duration::from_millis(5));
+        }
+        if !t_server.is_finished() {
+            for hd in hs {
+                let _ = hd.join();
+            }
+            let _ = std::fs::remove_file(&path);
+            return sx::tagged("tobs", vec![sx::atom("running"), sx::nat(h as usize), sx::boolean(false)]);
+        }
     }
     let (kind, at) = t_server.join().unwrap_or(("err", Instant::now()));
     let ret_ms = at.saturating_duration_since(t0).as_millis() as u64;
@@ -685,6 +706,20 @@ impl Suite for ListenSuite {
             cases.push(timing_case(0, Some(0), 1, 4, &[], "flag-set-before-start"));
             cases.push(timing_case(2, Some(450), 1, 4, &[], "flag-before-timeout"));
             cases.push(timing_case(1, None, 1, 1, &[(100, 600), (200, 100)], "queued-behind-max"));
+            // overlapping connections of which one ends early: the other one is still being served when the idle
+            // period after the first one's end is over
+            cases.push(timing_case(1, None, 1, 4, &[(100, 300), (150, 1900), (1550, 100)], "overlapping-one-ends-early"));
+            cases.push(timing_case(1, None, 2, 4, &[(100, 1900), (150, 250), (200, 250), (1600, 100)], "overlapping-two-end-early"));
+            cases.push(timing_case(1, Some(60_000), 1, 4, &[(100, 300), (150, 1900), (1550, 100)], "overlapping-one-ends-early-sliced"));
+            // long idle timeouts (hours, and values whose millisecond count does not fit 32 bits): the service
+            // must still be there after two seconds
+            for idle in [3600usize, 2_147_484, 4_294_968, 8_000_000] {
+                let mut c = timing_case(idle, None, 1, 4, &[(100, 100)], "long-idle-timeout-still-running");
+                if let Sx::List(l) = &mut c.input {
+                    l.push(sx::tagged("horizon", vec![sx::nat(1800)]));
+                }
+                cases.push(c);
+            }
             let steady: Vec<(usize, usize)> = (0..40).map(|i| (30 + i * 40, 20)).collect();
             cases.push(timing_case(0, Some(450), 1, 8, &steady, "flag-under-steady-arrivals"));
             cases.push(timing_case(1, Some(850), 2, 8, &steady, "flag-under-steady-arrivals-with-idle"));
@@ -867,6 +902,76 @@ impl Suite for ListenSuite {
                     tags: vec!["oneway-failing-in-generated-dispatch".into()],
                 });
             }
+        }
+        // (b6) one worker thread serves, one after the other, peers that hang up before reading their replies
+        //      and peers that behave: nothing of an earlier connection may reach a later one
+        for t in ["unix", "tcp"] {
+            let cfg = &cfgs[1];
+            let mut clients = Vec::new();
+            for k in 0..3usize {
+                let mut total = Vec::new();
+                for _ in 0..40 {
+                    tok += 1;
+                    let v = serde_json::json!({"method": format!("no.such.t{}z.M", tok), "parameters": {"token": format!("t{}z", tok)}});
+                    total.extend_from_slice(&serde_json::to_vec(&v).unwrap());
+                    total.push(0);
+                }
+                clients.push(client_sx("sendclose", 60 * k, &[total.clone()], &total));
+                let mut total = Vec::new();
+                for _ in 0..3 {
+                    tok += 1;
+                    let v = serde_json::json!({"method": format!("no.such.t{}z.M", tok), "parameters": {"token": format!("t{}z", tok)}});
+                    total.extend_from_slice(&serde_json::to_vec(&v).unwrap());
+                    total.push(0);
+                }
+                clients.push(client_sx("half", 60 * k + 30, &[total.clone()], &total));
+            }
+            let mut cl = vec![sx::atom("clients")];
+            cl.extend(clients);
+            cases.push(Case {
+                input: sx::tagged("listen-conc", vec![sx::atom(t), sx::nat(1), cfg.sx.clone(), sx::list(cl), sx::tagged("max", vec![sx::nat(1)])]),
+                tags: vec!["peers-hanging-up-unread-then-others-on-the-same-worker".into()],
+            });
+        }
+        // (b7) valid requests whose parameters are nested almost as deeply as serde_json allows (128), beside
+        //      ordinary peers: a worker must cope with what the parser accepts
+        {
+            let cfg = &cfgs[1];
+            let mut clients = Vec::new();
+            for (k, d) in [60usize, 100, 120, 126].iter().enumerate() {
+                tok += 1;
+                let mut s = format!("{{\"method\":\"no.such.t{}z.M\",\"parameters\":{{\"token\":\"t{}z\",\"deep\":", tok, tok);
+                for _ in 0..(*d - 2) { s.push('['); }
+                for _ in 0..(*d - 2) { s.push(']'); }
+                s.push_str("}}");
+                let mut total = s.into_bytes();
+                total.push(0);
+                tok += 1;
+                total.extend_from_slice(&serde_json::to_vec(&serde_json::json!({"method":"org.varlink.service.GetInfo","parameters":{"token": format!("t{}z", tok)}})).unwrap());
+                total.push(0);
+                clients.push(client_sx("half", 20 * k, &[total.clone()], &total));
+            }
+            // … and with a method implementation that uses 256 KiB of stack
+            {
+                tok += 1;
+                let t = format!("t{}z", tok);
+                let mut tt = serde_json::to_vec(&serde_json::json!({"method":"org.example.s.Run","parameters":{"token": t,
+                    "script":[{"op":"stack","kb":256},{"op":"reply","p":{"token": t}}]}})).unwrap();
+                tt.push(0);
+                clients.push(client_sx("half", 35, &[tt.clone()], &tt));
+            }
+            for k in 0..2usize {
+                tok += 1;
+                let mut tt = serde_json::to_vec(&serde_json::json!({"method":"org.varlink.service.GetInfo","parameters":{"token": format!("t{}z", tok)}})).unwrap();
+                tt.push(0);
+                clients.push(client_sx("hold", 10 + 50 * k, &[tt.clone()], &tt));
+            }
+            let mut cl = vec![sx::atom("clients")];
+            cl.extend(clients);
+            cases.push(Case {
+                input: sx::tagged("listen-conc", vec![sx::atom("unix"), sx::nat(2), cfg.sx.clone(), sx::list(cl)]),
+                tags: vec!["deeply-nested-valid-requests".into()],
+            });
         }
         // (c) faulty peers sending long malformed messages with non-ASCII bytes at boundary offsets
         {
